@@ -13,6 +13,7 @@ use std::{
 };
 
 static PENDING: AtomicI64 = AtomicI64::new(0);
+static PENDING_TOTAL: AtomicU64 = AtomicU64::new(0);
 static COMMITS: AtomicU64 = AtomicU64::new(0);
 
 fn probes() -> &'static Mutex<BTreeMap<&'static str, u64>> {
@@ -34,6 +35,12 @@ pub fn take_probes() -> BTreeMap<&'static str, u64> {
 /// was (or is about to be) spawned.
 pub fn pending_inc() {
     PENDING.fetch_add(1, Ordering::SeqCst);
+    PENDING_TOTAL.fetch_add(1, Ordering::SeqCst);
+}
+
+/// Monotonic count of all detached delivery tasks ever announced.
+pub fn pending_total() -> u64 {
+    PENDING_TOTAL.load(Ordering::SeqCst)
 }
 
 /// Such a task finished.
